@@ -234,9 +234,11 @@ def teardown(ctx):
 # ------------------------------------------------------------------ generator
 
 _REGEX = ["fire", "Fire", "FIREFOX", "^a", "b$", "x|y", "\\d+", ".", "ü", "Ü", "[A-Z]", "a.c", "", "日本", "chrome|firefox",
-          "^$", "e", "(?:git)hub", "\\bvim\\b", "ß"]
+          "^$", "e", "(?:git)hub", "\\bvim\\b", "ß",
+          # patterns whose meaning depends on where one VALUE starts and ends (each selected value is searched on its own)
+          "\\s", "\\W", "\\Aabc", "vim\\Z", "fox\\W+abc", "[^x]+$", "\\S\\s+\\S", "^VIM", "(?s)c.x", "\\n", "^xb$", "\\Axb\\Z", "c$"]
 _VALS = ["firefox", "Firefox", "FIREFOX - github", "abc", "ABC", "xb", "vim", "VIM notes", "ünï", "ÜBER", "日本語", "", "42",
-         "e", "straße", "y", 42, None, ["firefox"], {"a": "firefox"}, True, 3.5]
+         "e", "straße", "y", 42, None, ["firefox"], {"a": "firefox"}, True, 3.5, "abc\nxb", "line one\nVIM", "xb\n"]
 _DKEYS = ["app", "title", "url", "k", "$category", "$tags"]
 
 
